@@ -48,6 +48,12 @@ def docs_for(ref):
         "refdef_dq": "[l][r]\n\n[r]: </p%sz> \"t%sz\"" % (ref, ref),
         "refdef_par": "[l][r]\n\n[r]: /p%sz\n  (t%sz)" % (ref, ref),
         "info": "```q%sz\nc\n```" % ref,
+        # the reference as the first / the last thing of a destination (seed C12-9: white space denoted by a reference is
+        # part of the destination, not padding around it)
+        "dest_start": "[l](%sz)" % ref,
+        "dest_end": "[l](/p%s)" % ref,
+        "refdef_start": "[l][r]\n\n[r]: %sz" % ref,
+        "refdef_end": "[l][r]\n\n[r]: /p%s\n" % ref,
     }
 
 
@@ -127,6 +133,14 @@ def decoded(case, f):
         txt = b"".join(text_arg(n) for n in nodes if n.kind in ("Text", "TextSpecial"))
         disp = (("a" + PRES[case.params["pre"]][1]) if ctx == "textpre" else CROWDED[case.params["pre"]][1]).encode()
         return txt[len(disp):-1] if txt.startswith(disp) and txt.endswith(b"z") else b"<<surroundings changed: %r>>" % txt[:80]
+    if ctx.endswith("_start") or ctx.endswith("_end"):
+        links = [n for n in nodes if n.kind == "Link"]
+        if len(links) != 1:
+            return None
+        url = pct_decode(text_arg(links[0], 0))
+        if ctx.endswith("_start"):
+            return url[:-1] if url.endswith(b"z") else None
+        return url[2:] if url.startswith(b"/p") else None
     if ctx.startswith("title"):
         ctx = "title"
     if ctx.startswith("refdef"):
@@ -182,8 +196,8 @@ def oracle(case, io, mo):
     base = _ctx.get(ref)
     if base is None:
         return None
-    # whitespace-valued references cannot be observed inside a destination token / info string word
-    if base == b"" or any(ch.isspace() for ch in base.decode("utf-8", "replace")):
+    # whitespace-valued references cannot be observed inside an info string word (only its first word is shown)
+    if base == b"" or (p["ctx"] == "info" and any(ch.isspace() for ch in base.decode("utf-8", "replace"))):
         return None
     if p["ctx"] == "info" and "`" in ref:
         return None          # a backtick in the info string of a backtick fence is not a fence at all
